@@ -1,8 +1,10 @@
 #!/bin/bash
 # like seedrun.sh, but on a private worktree copy of /repo (VERIF_REPO), so that it can run while other checks use /repo
 id=$1; shift
+export VERIF_EVIDENCE_DIR=/tmp/seed-evidence-$id
 patch=${SEEDDIR:-/tmp/seeded-out}/$id/patch.diff
-W=/tmp/seedrepo
+W=${SEEDREPO:-/tmp/seedrepo}
+[ -d $W ] || git -C /repo worktree add -q --detach $W HEAD
 git -C $W status --short | grep -q . && { echo "$W is dirty"; exit 2; }
 git -C $W checkout -q --detach $(git -C /repo rev-parse HEAD)
 git -C $W apply $patch || { echo "patch does not apply"; exit 2; }
